@@ -62,9 +62,11 @@ Keep(x) == Family # "prec" \/ (NOps(x) <= MaxOps /\ (Positional => LeafSeq(x) = 
 Printable(x) == LET v == Eval(x) IN v.k # "num" \/ (v.d <= 8 /\ Abs(v.n) < 8192)
 Styles == <<"min", "full", "left", "right">>
 Emit(x) ==
-    \A s \in 1..4 :
-        (s = 1 \/ Render(x, Styles[s]) # Render(x, "min")) =>
-            PrintT(<<"EXPR", ToJson([t |-> x, x |-> Render(x, Styles[s]), style |-> Styles[s], pr |-> Printable(x)])>>)
+    LET m == Render(x, "min")
+    IN  \A s \in 1..4 :
+            LET txt == IF s = 1 THEN m ELSE Render(x, Styles[s])
+            IN  (s = 1 \/ txt # m) =>
+                    PrintT(<<"EXPR", ToJson([t |-> x, x |-> txt, style |-> Styles[s], pr |-> Printable(x)])>>)
 InFragment(x) == Eval(x).k # "out"
 
 Init == /\ CASE Family = "prec"   -> t \in Trees(MaxDepth, IntLeaves, PrecBin) /\ i = 0
